@@ -1,16 +1,51 @@
 """C10 - no well-formed session corrupts memory (partial: what the contract proofs carry).
 
   Every obligation group of every property runs with CBMC's --bounds-check --pointer-check --pointer-overflow-check on the extracted
-  engine functions; this module re-runs the group whose memory-safety content is specific to C10:
-    - Search::iter_search: the per-depth array previous_moves[MAX_DEPTH + 1] and the search stack entries it touches stay in bounds for
-      every depth limit (fixed: a52d773, `go depth 45` wrote previous_moves[41..45])
-  Memory-safety obligations proved elsewhere under stated capacity preconditions: piece lists (C02/C03: count < 10 before add_piece),
-  key history (C02: history counter < 800), move list capacity projection (C01 leaves).  Those preconditions are NOT discharged for
-  whole sessions (a game longer than 800 plies, or a FEN with more than 10 pieces of a kind, is outside them).
+  engine functions; this module holds the groups whose content is specific to C10:
+    iter_search               Search::iter_search: the per-depth array previous_moves[MAX_DEPTH + 1] and the search-stack entries it touches
+                              stay in bounds for every depth limit (fixed: a52d773, `go depth 45` wrote previous_moves[41..45])
+    do_move/history_capacity  Position::do_move for every history length a legal game can reach (1..800 entries): the store into the
+                              key history must stay inside the array.  It does not: KNOWN FINDING (see known_findings.txt) - the 800th
+                              ply of a game writes _history[800]; `position startpos moves <820 plies>` crashes the engine.
+  Memory-safety obligations proved elsewhere under capacity preconditions: piece lists (C02/C03: count < 10 before add_piece), move list
+  capacity projection (C01 leaves).  Those preconditions are NOT discharged for whole sessions.
 """
-from props.C05 import jobs, LEVEL, ASSUMPTIONS  # noqa: F401
+from runner import Job
+from props.C05 import jobs as c05_jobs, LEVEL, ASSUMPTIONS  # noqa: F401
+from props.poscommon import *
+from props.C02 import MOVE_CLASS, CLASSES, GHOST as GHOST2
+from props.C11 import loops_unwind
 
-EXPLANATION = ('Bounds of the per-depth array and search-stack accesses of Search::iter_search for every depth limit, conditional on an assumed contract of Search::search; '
-               'all other tables are covered only under the capacity preconditions stated in C01/C02/C03.')
-NOT_COVERED = ['Search::search / quiescence stack depth', 'transposition table indexing', 'UCI parsing buffers (searchmoves[512])', 'game history capacity (800 plies) for arbitrarily long games',
+EXPLANATION = ('Bounds of the per-depth array and search-stack accesses of Search::iter_search for every depth limit (conditional on an assumed contract of Search::search), and '
+               'the key-history store of Position::do_move for every reachable history length; all other tables are covered only under the capacity preconditions stated in C01/C02/C03.')
+NOT_COVERED = ['Search::search / quiescence stack depth', 'transposition table indexing', 'UCI parsing buffers (searchmoves[512])',
                'piece-list capacity for positions with more than 10 pieces of one kind', 'uninitialised reads', 'threads']
+
+REPLAY_CAP = {'needs': [], 'body': '''
+  Position Q;                                     // start position; a legal game: both sides shuffle a knight
+  const char* cyc[4] = {"g1f3", "g8f6", "f3g1", "f6g8"};
+  int cap = VerifAccess::hcap(), n = 0;
+  while (VerifAccess::hc(Q) < cap) { Q.do_move(Q.parse_uci(cyc[n % 4])); n++; }
+  printf("after %d plies of a legal game the key history holds %d of %d entries\\n", n, VerifAccess::hc(Q), cap);
+  Q.do_move(Q.parse_uci(cyc[n % 4]));             // the store of this do_move goes to _history[capacity]
+  printf("one more legal move: history counter %d > capacity %d (the key was stored past the end of the array)\\n", VerifAccess::hc(Q), cap);
+  if (VerifAccess::hc(Q) > cap) printf("CONFIRMED out-of-bounds store into the key history on the real code\\n"); else printf("NOT-REPRODUCED\\n");
+''', 'access': '''
+  static int hc(const Position& P) { return P._history_counter; }
+  static int hcap() { return (int)(sizeof(Position::_history) / sizeof(uint64_t)); }
+'''}
+
+
+def jobs(tier, seed):
+    out = c05_jobs(tier, seed)
+    DO = 'Position__do_move'
+    c = ('__CPROVER_requires(wf_pos(self) && sp_is(self, &G_P0) && sp_pseudo_legal(&G_P0, move) && move_class(&G_P0, move) == 4)\n'
+         '__CPROVER_requires(self->_history_counter >= 1 && self->_history_counter <= 800 && self->_half_move_counter <= 150 && self->_ply_counter >= 0 && self->_ply_counter < 100000)\n'
+         '__CPROVER_assigns(__CPROVER_object_whole(self))\n'
+         '__CPROVER_ensures(self->_history_counter == __CPROVER_old(self->_history_counter) + 1)\n')
+    h = ND + ('void h_cap(void) { struct Position P = nondet_Position(); uint32_t m = nondet_u32(); sp_of(&P, &G_P0); %s(&P, m);' % DO + CANARY + '}\n')
+    out.append(Job('do_move/history_capacity', PTUS, [DO], h, 'h_cap', contracts={DO: c}, enforce=DO, spec=SPEC, post_spec=POST, pre_text=GHOST2 + MOVE_CLASS,
+                   unwindset=loops_unwind([('Position__remove_piece', 11), ('Position__move_piece', 11)]), timeout=1800, flags=['--slice-formula'], replay=REPLAY_CAP,
+                   route='closed-by-complete-unwinding(11); piece mutators inlined',
+                   note='do_move (quiet moves) for every history length a legal game can reach: the key-history store stays inside the array'))
+    return out
